@@ -10,6 +10,7 @@ import MdpaxV.Model.Loop
 import MdpaxV.Model.Solvers
 import MdpaxV.Model.SemiAsync
 import MdpaxV.Model.Spaces
+import MdpaxV.Model.Matrices
 open MdpaxV
 
 /-! parsing / printing -/
@@ -192,6 +193,11 @@ def handle (d : DState) (line : String) : Except String (DState × String) := do
         let sp := rangeSpace mins maxs
         let ext := rangeSpace (mins.map (· - 2)) (maxs.map (· + 2))
         pure (d, s!"space={fList2 toString sp} idx={fList toString (ext.map (indexFn mins maxs))}")
+    | "matrices" => do
+        let p ← getP d (← arg a "id"); let tol ← pRat (← arg a "tol")
+        match buildMatrices p.P tol with
+        | .error s a r => pure (d, s!"error=ValueError state={s} action={a} rowsum={fRat r}")
+        | .ok Pm Rm => pure (d, s!"P={fList2 fRat (Pm.flatten)} R={fList2 fRat Rm}")
     | "qrow" => do
         let p ← getP d (← arg a "id")
         let γ ← pRat (← arg a "gamma"); let V ← pList pRat (← arg a "V"); let s ← pNat (← arg a "s")
